@@ -8,6 +8,34 @@ HERE = os.path.dirname(os.path.dirname(os.path.abspath(__file__)))
 TECH = "custom AST static analysis: "
 
 CLAIMS = {
+    "C16": dict(
+        text="Decides immutability/ownership of DerivationTree state (identity fields written only by the constructor, memo fields only by their guarded memo "
+        "accessors, no external writer), totality of the path index for any branching degree (interval reasoning of the key encoder against the folded trie "
+        "alphabet, prefix-freeness, encoder/decoder constant agreement, relative-path cut), that path lookup / node search / filter / leaves / trie are all "
+        "views of the pre-order paths(), the exact shape of replace_path (only the addressed child changes; ancestors keep label and id; sound is_open flags), "
+        "and id-freeness of the structural hash. Does NOT decide cached-openness arithmetic along arbitrary operation sequences.",
+        note="Trusted: datrie's documented alphabet behaviour; child indices are non-negative; Python name mangling.",
+        technique=TECH + "who-may-write ownership analysis over mangled private fields, constant folding + interval analysis of the trie key codec, normalised-shape recognition",
+        design="5/C16",
+    ),
+    "C17": dict(
+        text="Decides that serialisers have no write effect on the live object (incl. through aliases of self.__dict__), that stripped cache fields are stripped "
+        "on every node and re-created by the reader, that the quote escape of smt_expr_to_str is undone by every reader before z3.parse_smt2_string and no "
+        "reader replace() is a no-op, that __setstate__ only reads keys __init__ provides, and that the CLI JSON writer/reader are inverse incl. None-vs-[] "
+        "children. Does NOT decide equality of the round trip for every string (non-ASCII goes through Z3's own parser).",
+        note="Trusted: SMT-LIB 2.6 string-literal syntax in z3.parse_smt2_string; json module.",
+        technique=TECH + "effect/alias analysis (serializer purity), writer/reader escape-pair agreement by constant folding, field coverage",
+        design="5/C17",
+    ),
+    "C19": dict(
+        text="Decides the CLI's own plumbing: exit-code constants and every exit site, DATA_FORMAT_ERROR handlers around all grammar/constraint parsing with an "
+        "error message, USAGE_ERROR for missing grammar/constraint/input, conjunction of all constraints, exit code 0 of check/parse only after "
+        "solver.check(tree) held on the tree obtained from the input, and totality of input-text handling (no unguarded indexing; functions applied to "
+        "input-derived data run inside safe()). Does NOT decide that solve output is accepted by check (C01/C03) nor UnknownResultError (inventoried).",
+        note="Trusted: argparse exits with 2 on option errors; SystemExit is not an Exception; returns.safe/.map/.lash semantics.",
+        technique=TECH + "exit-site classification, try/handler dominance, path facts for gates, may-raise summary of pipeline stages",
+        design="5/C19",
+    ),
     "C02": dict(
         text="Decides structural necessary conditions of 'solve() only returns solutions or raises StopIteration/TimeoutError and then stays so': "
         "arity of every dispatch table reachable from solve() in the call graph, the lexical exits of solve() and the provenance of what it returns, "
